@@ -15,7 +15,9 @@ Record omir := { m_t : list N; m_q : N; m_m : N; m_a : list bool }.
 Inductive ostep :=
 | OLocal                                   (* source.Add/Remove/Set *)
 | OClient (rc rs : N)                      (* NetworkMachine.Add/Remove/Set: results *)
-| ORace (parked : bool) (trans2 : list snap) (mir2 : omir) (rc rs : N)
+| ORace (parked : bool) (trans2 : list snap) (mir2 mir_ret : omir) (rc rs : N)
+    (* mir2: mirror while the reply was parked; mir_ret: when the call returned;
+       o_mir of a race step: after the client settled (async Sync) *)
 | OPush
 | OSync
 | ODrop (rehello srv_ready : bool)  (* client re-handshaken; server Ready again *)
@@ -71,7 +73,7 @@ Definition run_step (p : pcfg) (pushes : bool) (s : st) (o : orec) : st * list N
       let blocked := negb (Nat.eqb (length (st_wire s')) 0) in
       (s', (if Bool.eqb blocked (o_timeout o) then [] else [4])
            ++ (if mir_eqb s' (o_mir o) then [] else [3]) ++ pushes_ok s')
-  | ORace parked trans2 mir2 _ _ =>
+  | ORace parked trans2 mir2 _ _ _ =>
     if cl_stuck (st_cl s) then
       (s, (if o_timeout o then [] else [4]) ++ (if mir_eqb s (o_mir o) then [] else [3]))
     else if negb parked then (s, [12])
@@ -132,56 +134,59 @@ Definition mismatch (k : c09case) : list N :=
 (* ---------------------------------------------------------------- kind 2 *)
 
 Definition raced (k : c09case) : bool :=
-  existsb (fun o => match o_step o with ORace true _ _ _ _ => true | _ => false end) (k_steps k).
+  existsb (fun o => match o_step o with ORace true _ _ _ _ _ => true | _ => false end) (k_steps k).
 
 Definition dropped (k : c09case) : bool :=
   existsb (fun o => match o_step o with ODrop _ _ => true | _ => false end) (k_steps k).
 
-(* the input class a violation is attributed to (first that applies):
-   3 per-mutation sync; 2 shallow clocks; 1 a reply was overtaken by a push;
-   6 a source with MachineTick <> 0 while /repo lacks one of the machine-tick
-   repairs of the client side; 8 the placeholder
-   dataLatest of NewServer was pushed; 5 a full Sync happened; 4 a push
-   consumed a snapshot without sending it (empty Indexes); 7 reconnect;
-   9 after a reconnect the server did not return to Ready (the previous
-   connection was still open, or its disconnect notification came late);
-   0 none of these. *)
 (* a reconnect after which the server side never got back to Ready *)
 Definition lost_session (k : c09case) : bool :=
   existsb (fun o => match o_step o with ODrop true false => true | _ => false end) (k_steps k).
 
+(* the input class a violation is attributed to (first that applies):
+   9 after a reconnect the server did not return to Ready (the previous
+     connection was still open, or its disconnect notification came late);
+   5 a full Sync was refused by the client ("wrong clock len": no schema and an
+     allow / skip list) - a drift can then never be repaired;
+   6 a source with MachineTick <> 0 while /repo lacks one of the machine-tick
+     repairs of the client side;
+   8 per-mutation sync and a reconnect (RemoteHello keeps the tracer's
+     dataQueue: the next chain starts below the re-memorised lastPushData);
+   2 shallow clocks; 3 per-mutation sync; 1 a reply was overtaken by a push;
+   7 reconnect; 4 a full Sync was applied; 0 none of these.
+   (old code: 4 was "silent push", 8 "placeholder pushed", 5 "a Sync happened") *)
 Definition cls (k : c09case) : N :=
   let s := fst (model_final k) in
-  if p_mut (k_p k) then 3
-  else if shallow (p_codec (k_p k)) then 2
-  else if raced k then 1
+  if lost_session k then 9
+  else if negb (Nat.eqb (cl_errs (st_cl s)) 0) then 5
   else if negb (s_m (k_hello_src k) =? 0)
           && negb (p_hello_m (k_p k) && p_sync_m (k_p k)) then 6
-  else if lost_session k then 9
-  else if st_initpush s then 8
-  else if st_synced s then 5
-  else if st_silent s then 4
+  else if p_mut (k_p k) && dropped k then 8
+  else if shallow (p_codec (k_p k)) then 2
+  else if p_mut (k_p k) then 3
+  else if raced k then 1
   else if dropped k then 7
+  else if st_synced s then 4
   else 0.
 
 (* effect visible on return: the mirror agrees with the source as it was
    when the reply was computed or as it is on return *)
-Definition visible (c : cfg) (o : orec) : bool * bool :=
+Definition visible (c : cfg) (o : orec) (m : omir) : bool * bool :=
   let cands := o_src o :: match rev (o_trans o) with x :: _ => [x] | [] => [] end in
-  (existsb (fun x => activity_ok c (s_time x) (m_t (o_mir o))) cands,
-   existsb (fun x => mirror_ok c (s_time x) (m_t (o_mir o))) cands).
+  (existsb (fun x => activity_ok c (s_time x) (m_t m)) cands,
+   existsb (fun x => mirror_ok c (s_time x) (m_t m)) cands).
 
 Definition step_viol (k : c09case) (o : orec) : list N :=
   let c := p_codec (k_p k) in
-  let res rc rs :=
+  let res rc rs m :=
     if o_timeout o then []
     else (if (rs =? 0) || result_ok rc rs then [] else [200])
-         ++ (let '(act, full) := visible c o in
+         ++ (let '(act, full) := visible c o m in
              if full then [] else if act then [320] else [300]) in
   (if o_timeout o then [400] else []) ++
   match o_step o with
-  | OClient rc rs => res rc rs
-  | ORace true _ _ rc rs => res rc rs
+  | OClient rc rs => res rc rs (o_mir o)
+  | ORace true _ _ mret rc rs => res rc rs mret
   | ODrop false _ => [500]
   | ODrop true false => [520]
   | _ => []
@@ -199,7 +204,7 @@ Fixpoint changed_since (l : list orec) (acc : bool) : bool :=
   | o :: r =>
     match o_step o with
     | OClient _ _ | OSync | ODrop true _ => changed_since r (o_timeout o)
-    | ORace _ _ _ _ _ => changed_since r true
+    | ORace _ _ _ _ _ _ => changed_since r (o_timeout o)
     | _ => changed_since r (acc || negb (Nat.eqb (length (o_trans o)) 0))
     end
   end.
